@@ -49,6 +49,27 @@ impl Local {
             self.inconclusive.push(r.to_string());
         }
     }
+    pub fn merge(&mut self, o: Local) {
+        self.evals += o.evals;
+        for (k, n) in o.counters {
+            *self.counters.entry(k).or_insert(0) += n;
+        }
+        self.distinct.extend(o.distinct);
+        for s in o.samples {
+            if self.samples.len() < 8 {
+                self.samples.push(s);
+            }
+        }
+        for v in o.violations {
+            if !self.violations.iter().any(|x| x.0 == v.0) {
+                self.violations.push(v);
+            }
+        }
+        for r in o.inconclusive {
+            self.inconclusive(&r);
+        }
+        self.per_case.extend(o.per_case);
+    }
 }
 
 // ------------------------------------------------------------------------------------------
@@ -359,7 +380,9 @@ pub struct RunOut {
     pub limits: Vec<u64>,
     pub first_limit: u64,
     pub completed_in_first: bool,
-    pub probe_result: Option<(u64, u64, Verdict)>, // (consumed at probe, budget, verdict)
+    /// (consumed at probe, consumed by the suspended group alone, budget, verdict)
+    pub probe_result: Option<(u64, u64, u64, Verdict)>,
+    pub max_vms: u64,
 }
 
 fn state_key(st: &TransactionState) -> (usize, u64, u64) {
@@ -368,6 +391,10 @@ fn state_key(st: &TransactionState) -> (usize, u64, u64) {
         st.current_cycles,
         st.state.as_ref().map(|s| s.total_cycles).unwrap_or(0),
     )
+}
+
+pub fn group_consumed(st: &TransactionState) -> u64 {
+    st.state.as_ref().map(|s| s.total_cycles).unwrap_or(0)
 }
 
 pub fn consumed(st: &TransactionState) -> u64 {
@@ -398,6 +425,7 @@ pub fn run_chunked(
         first_limit: 0,
         completed_in_first: false,
         probe_result: None,
+        max_vms: 1,
     };
     let mut state: Option<TransactionState> = None;
     let mut prev_key = None;
@@ -450,8 +478,11 @@ pub fn run_chunked(
                             Ok(r) => Verdict::from(r),
                             Err(p) => Verdict::Panic(p),
                         };
-                        out.probe_result = Some((consumed(&st), *budget, r));
+                        out.probe_result = Some((consumed(&st), group_consumed(&st), *budget, r));
                     }
+                }
+                if let Some(fs) = &st.state {
+                    out.max_vms = out.max_vms.max(fs.vms.len() as u64);
                 }
                 let key = state_key(&st);
                 if Some(key) == prev_key {
@@ -675,7 +706,9 @@ fn witness(cx: &CaseCtx, what: &str, extra: Value) -> Value {
 /// Signature of a result that differs from the reference. A "deadlock" error that the reference
 /// does not have (or has in another script group) is one specific failure of suspending at a
 /// cycle limit and resuming, whatever API the state went through afterwards.
-pub fn mismatch_sig(mode: &str, r: &Reference, got: &Verdict) -> String {
+pub fn mismatch_sig(mode: &str, cx: &CaseCtx, got: &Verdict, multi_vm_seen: bool) -> String {
+    let r = cx.r;
+    let multi_vm = multi_vm_seen || cx.case.name.contains("spawn");
     if got.class() == "deadlock" {
         return if mode == "signal" {
             "signal.spurious_deadlock".to_string()
@@ -685,6 +718,14 @@ pub fn mismatch_sig(mode: &str, r: &Reference, got: &Verdict) -> String {
     }
     let m = if mode == "signal" { "signal" } else { "chunked" };
     match (got, &r.verdict) {
+        (Verdict::Ok(a), Verdict::Ok(b)) if m == "chunked" => {
+            let _ = (a, b);
+            if multi_vm {
+                "chunked.cycles_changed@multi_vm".to_string()
+            } else {
+                "chunked.cycles_changed@single_vm".to_string()
+            }
+        }
         (Verdict::Ok(_), Verdict::Ok(_)) => format!("{m}.cycles_changed"),
         _ => format!("{m}.verdict_changed@{}->{}", r.verdict.class(), got.class()),
     }
@@ -696,6 +737,7 @@ fn judge_chunked(cx: &CaseCtx, l: &mut Local, mode: &str, desc: &str, out: &RunO
     l.eval();
     let obs = |o: &RunOut| {
         json!({"mode": mode, "schedule": desc, "limits_head": o.limits, "chunks": o.chunks,
+               "vms_seen": o.max_vms,
                "suspensions": o.suspensions, "stalls": o.stalls, "end": format!("{:?}", o.end)})
     };
     match (&out.end, r.kind) {
@@ -721,7 +763,11 @@ fn judge_chunked(cx: &CaseCtx, l: &mut Local, mode: &str, desc: &str, out: &RunO
         }
         (End::OverBudget(used), _) => {
             l.violation(
-                "chunked.consumed_more_than_total",
+                if out.max_vms > 1 || cx.case.name.contains("spawn") {
+                    "chunked.consumed_more_than_total@multi_vm"
+                } else {
+                    "chunked.consumed_more_than_total@single_vm"
+                },
                 format!(
                     "{}: {mode} {desc}: suspended state reports {used} consumed cycles > reference total {}",
                     cx.case.name, r.c
@@ -733,7 +779,7 @@ fn judge_chunked(cx: &CaseCtx, l: &mut Local, mode: &str, desc: &str, out: &RunO
             // a program that does not finish within the budget must not finish in fewer cycles
             if !v.is_exceeded() {
                 l.violation(
-                    &mismatch_sig(mode, r, v),
+                    &mismatch_sig(mode, cx, v, out.max_vms > 1),
                     format!(
                         "{}: {desc}: reference exceeds {} cycles, chunked run ended with {:?}",
                         cx.case.name, r.c, v
@@ -744,7 +790,12 @@ fn judge_chunked(cx: &CaseCtx, l: &mut Local, mode: &str, desc: &str, out: &RunO
         }
         (End::Done(v), _) => {
             if *v != r.verdict {
-                let sig = mismatch_sig(mode, r, v);
+                let sig = mismatch_sig(mode, cx, v, out.max_vms > 1);
+                if let (Verdict::Ok(a), Verdict::Ok(b)) = (v, &r.verdict) {
+                    if std::env::var("VSCRIPT_DEBUG_DIFF").is_ok() {
+                        l.count(&format!("dbg_cycle_diff_{}", *a as i64 - *b as i64));
+                    }
+                }
                 l.violation(
                     &sig,
                     format!(
@@ -768,13 +819,16 @@ fn judge_chunked(cx: &CaseCtx, l: &mut Local, mode: &str, desc: &str, out: &RunO
 }
 
 /// `complete(state, budget)` must behave like `verify(budget)`.
+#[allow(clippy::too_many_arguments)]
 fn judge_complete(
     cx: &CaseCtx,
     l: &mut Local,
     desc: &str,
     consumed_at: u64,
+    group_at: u64,
     budget: u64,
     got: &Verdict,
+    multi_vm_seen: bool,
 ) {
     let r = cx.r;
     if r.kind == Kind::Failure && budget < r.c {
@@ -790,11 +844,12 @@ fn judge_complete(
         Kind::Exceeded => false,
     };
     let obs = json!({"mode": "complete", "schedule": desc, "state_consumed": consumed_at,
+                     "state_consumed_by_suspended_group": group_at,
                      "budget": budget, "result": got.to_json()});
     if expect_ref {
         l.count("complete_probes_enough_budget");
         if *got != r.verdict {
-            let sig = mismatch_sig("complete", r, got);
+            let sig = mismatch_sig("complete", cx, got, multi_vm_seen);
             l.violation(
                 &sig,
                 format!(
@@ -808,7 +863,14 @@ fn judge_complete(
         l.count("complete_probes_short_budget");
         if !got.is_exceeded() {
             let sig = match got {
-                Verdict::Ok(_) => "complete.succeeds_over_budget".to_string(),
+                // (the suffix tells whether "the budget was only applied to what the suspended
+                // group still had to run" would explain the success)
+                Verdict::Ok(_) if budget >= r.c.saturating_sub(group_at) => {
+                    "complete.succeeds_over_budget@budget>=C-suspended_group_consumed".to_string()
+                }
+                Verdict::Ok(_) => {
+                    "complete.succeeds_over_budget@budget<C-suspended_group_consumed".to_string()
+                }
                 _ if got.class() == "deadlock" => "chunked.spurious_deadlock".to_string(),
                 _ => format!("complete.short_budget_not_reported@{}", got.class()),
             };
@@ -930,8 +992,8 @@ pub fn chunk_phase(
             }
         ));
         judge_chunked(cx, l, mode, &desc, &out);
-        if let Some((consumed_at, budget, got)) = &out.probe_result {
-            judge_complete(cx, l, &desc, *consumed_at, *budget, got);
+        if let Some((consumed_at, group_at, budget, got)) = &out.probe_result {
+            judge_complete(cx, l, &desc, *consumed_at, *group_at, *budget, got, out.max_vms > 1);
         }
         if idx < 2 && l.samples.len() < 3 && out.suspensions > 1 {
             l.samples.push(json!({"case": cx.case.name, "mode": mode, "schedule": desc,
@@ -1018,7 +1080,16 @@ pub fn budget_phase(cx: &CaseCtx, v: &Verifier, rng: &mut Rng, l: &mut Local, th
                                 Ok(x) => Verdict::from(x),
                                 Err(p) => Verdict::Panic(p),
                             };
-                            judge_complete(cx, l, "resumable_verify(C-1)", used, b, &got);
+                            judge_complete(
+                                cx,
+                                l,
+                                "resumable_verify(C-1)",
+                                used,
+                                group_consumed(&st),
+                                b,
+                                &got,
+                                false,
+                            );
                         }
                     }
                     other => {
